@@ -10,18 +10,18 @@ Line protocol of the C08 driver (all tokens are naturals unless said otherwise):
   list<T>  := n T₁ … Tₙ
   pinfo    := pn cid list<(name cid)>
   job      := list<nat> list<nat>
-  rec      := cstep rf list<nat> trajNum list<job>        rf = 0 none | R+1
+  rec      := cstep rf list<nat> trajNum list<job> steps  rf = 0 none | R+1
   rfile    := 0 | 1 | 2 | 3 rec
   disk     := list<(key fstate)> list<nat> garbled torn rfile rfile
-  cfg      := n deleteOld deleteAll variant                variant 0 asIs 1 repaired
-  mem      := cstep rf list<pinfo> trajNum list<(pn list<nat>)> list<job>
+  cfg      := n deleteOld deleteAll variant clean          variant 0 asIs 1 repaired; clean = clean_data_file on restart
+  mem      := cstep rf list<pinfo> trajNum list<(pn list<nat>)> list<job> steps
   acc      := pinfo cid list<(name cid)>
   choice   := list<acc> list<pinfo> list<job> inc halfRows halfTorn
   manifest := list<(cid list<nat>)>
 
   step  cfg mem disk choice              → "<mem'> | <disk'> | <effects>"
   crash cfg mem disk choice manifest k half
-        → "<disk'> | out=<..> out0=<..> rec=<..> present=<0/1> rows=<0/1> trunc=<0/1> rowwin=<0/1> restored=<mem>"
+        → "<disk'> | out=.. out0=.. present=0/1 rows=0/1 (on the restored disk) trunc=0/1 rowwin=0/1 | <rec> | <restored mem> | <data file after the restart's clean: rows garbled torn>"
 -/
 
 abbrev P (α : Type) := List String → Option (α × List String)
@@ -81,9 +81,9 @@ def pJob : P Job := fun ts =>
 def optOf (n : Nat) : Option Nat := if n = 0 then none else some (n - 1)
 
 def pRec : P Rec := fun ts =>
-  match pPair pNat (pPair pNat (pPair (pList pNat) (pPair pNat (pList pJob)))) ts with
-  | some ((cs, rf, act, tn, lk), r) =>
-    some ({ cstep := cs, restartedFrom := optOf rf, active := act, trajNum := tn, locked := lk }, r)
+  match pPair pNat (pPair pNat (pPair (pList pNat) (pPair pNat (pPair (pList pJob) pNat)))) ts with
+  | some ((cs, rf, act, tn, lk, st), r) =>
+    some ({ cstep := cs, restartedFrom := optOf rf, active := act, trajNum := tn, locked := lk, steps := st }, r)
   | none => none
 
 def pRFile : P RFile := fun ts =>
@@ -101,18 +101,20 @@ def pDisk : P Disk := fun ts =>
   | none => none
 
 def pCfg : P Cfg := fun ts =>
-  match pPair pNat (pPair pBool (pPair pBool pNat)) ts with
-  | some ((n, a, b, v), r) =>
-    some ({ n := n, deleteOld := a, deleteAll := b, variant := if v = 0 then .asIs else .repaired }, r)
+  match pPair pNat (pPair pBool (pPair pBool (pPair pNat pBool))) ts with
+  | some ((n, a, b, v, cl), r) =>
+    some ({ n := n, deleteOld := a, deleteAll := b, variant := if v = 0 then .asIs else .repaired,
+            cleanOnRestart := cl }, r)
   | none => none
 
 def pOld : P Old := fun ts =>
   (pPair pNat (pList pNat) ts).map (fun ((a, b), r) => ({ pn := a, names := b }, r))
 
 def pMem : P Mem := fun ts =>
-  match pPair pNat (pPair pNat (pPair (pList pPInfo) (pPair pNat (pPair (pList pOld) (pList pJob))))) ts with
-  | some ((cs, rf, live, tn, olds, lk), r) =>
-    some ({ cstep := cs, restartedFrom := optOf rf, live := live, trajNum := tn, olds := olds, locked := lk }, r)
+  match pPair pNat (pPair pNat (pPair (pList pPInfo) (pPair pNat (pPair (pList pOld) (pPair (pList pJob) pNat))))) ts with
+  | some ((cs, rf, live, tn, olds, lk, st), r) =>
+    some ({ cstep := cs, restartedFrom := optOf rf, live := live, trajNum := tn, olds := olds, locked := lk,
+            steps := st }, r)
   | none => none
 
 def pAcc : P Acc := fun ts =>
@@ -145,7 +147,7 @@ def sPInfo (p : PathInfo) : String := s!"{p.pn} {p.cid} {sL (fun nc => s!"{nc.1}
 def sJob (j : Job) : String := s!"{sL toString j.ens} {sL toString j.paths}"
 def sOpt : Option Nat → String | none => "0" | some r => toString (r + 1)
 def sRec (r : Rec) : String :=
-  s!"{r.cstep} {sOpt r.restartedFrom} {sL toString r.active} {r.trajNum} {sL sJob r.locked}"
+  s!"{r.cstep} {sOpt r.restartedFrom} {sL toString r.active} {r.trajNum} {sL sJob r.locked} {r.steps}"
 def sRFile : RFile → String
   | .absent => "0" | .empty => "1" | .part => "2" | .complete r => s!"3 {sRec r}"
 
@@ -159,7 +161,7 @@ def sDisk (d : Disk) : String :=
   s!"{sL (fun e => s!"{sKey e.1} {sFState e.2}") fs} {sL toString d.data.rows} {d.data.garbled} {if d.data.torn then 1 else 0} {sRFile d.restart} {sRFile d.tmp}"
 
 def sMem (m : Mem) : String :=
-  s!"{m.cstep} {sOpt m.restartedFrom} {sL sPInfo m.live} {m.trajNum} {sL (fun o => s!"{o.pn} {sL toString o.names}") m.olds} {sL sJob m.locked}"
+  s!"{m.cstep} {sOpt m.restartedFrom} {sL sPInfo m.live} {m.trajNum} {sL (fun o => s!"{o.pn} {sL toString o.names}") m.olds} {sL sJob m.locked} {m.steps}"
 
 def sEffect : Effect → String
   | .mkdir k => s!"mkdir:{sKey k}" | .openW k => s!"openw:{sKey k}" | .write k c => s!"write:{sKey k}:{c}"
@@ -190,14 +192,16 @@ def handle (toks : List String) : String :=
       let d' := crashStep cfg m c d k half
       let out := restartOutcome M .restartToml d'
       let out0 := restartOutcome M .infretisToml d'
-      let (recS, present, rows, restored) := match d'.restart with
+      let (recS, present, rows, restored, cleaned) := match d'.restart with
         | .complete r =>
           let mem := restore M r d'.files
+          let dr := restoreDisk cfg r d'
           (sRec r,
            r.active.all (fun a => (loadPath M d'.files a).isSome) && mem.live.all (pathOK d'.files),
-           rowsOK d'.data r.active, sMem mem)
-        | _ => ("-", false, false, "-")
-      s!"{sDisk d'} | out={sOutcome out} out0={sOutcome out0} present={b01 present} rows={b01 rows} trunc={b01 (inTruncWindow cfg m c d k)} rowwin={b01 (inRowWindow cfg m c d k half)} | {recS} | {restored}"
+           rowsOK dr.data r.active, sMem mem,
+           s!"{sL toString dr.data.rows} {dr.data.garbled} {if dr.data.torn then 1 else 0}")
+        | _ => ("-", false, false, "-", "-")
+      s!"{sDisk d'} | out={sOutcome out} out0={sOutcome out0} present={b01 present} rows={b01 rows} trunc={b01 (inTruncWindow cfg m c d k)} rowwin={b01 (inRowWindow cfg m c d k half)} | {recS} | {restored} | {cleaned}"
     | _ => "bad-op"
   | _ => "bad-op"
 
